@@ -202,6 +202,7 @@ def coq_op(op):
     k = op[0]; nats = lambda l: '[' + '; '.join(str(x) for x in l) + ']'
     b = lambda x: 'true' if x else 'false'
     if k == 'push': return f'(OPush {op[1]} {op[2]}%N {coq_uval(op[3])})'
+    if k == 'trypush': return f'(OTryPush {op[1]} {op[2]}%N {coq_uval(op[3])})'
     if k == 'probe': return f'(OProbe {op[1]})'
     if k == 'probeo': return f'(OProbeOwned {op[1]})'
     if k == 'read': return f'(ORead {op[1]})'
